@@ -82,6 +82,8 @@ def h_single(params, c: int, n1: int, n2: int, single: bool, k: int, t: str):
     assume(0 <= c < 3)
     cmd = CMDS[c]
     assume(_cmd_ok(cmd, n1, n2, n))
+    if "lo" in params:
+        assume((params["lo"] <= n1) & (n2 <= params["hi"]))
     if single:
         assume(n1 == n2)
     assume(0 <= k <= 2)
@@ -295,6 +297,11 @@ def partitions(tier, seed):
             for tl in ((0, 2) if q else (0, 1, 2, 3)):
                 P.append(dict(name="single/%s/n%d/t%d" % (kind, n, tl), harness="h_single", params=dict(kind=kind, n=n, tlen=tl),
                               budget=80 if q else 900, bounds="old file of %d lines; any in-range command; 0-2 text lines, first one %d symbolic chars" % (n, tl)))
+        for n, lo, hi in ((12, 7, 12), (101, 97, 101)):
+            if q and (n == 101 or kind == "bytes"):
+                continue
+            P.append(dict(name="single/%s/n%d/long" % (kind, n), harness="h_single", params=dict(kind=kind, n=n, tlen=1, lo=lo, hi=hi),
+                          budget=100 if q else 900, bounds="old file of %d lines; any command with line numbers in %d..%d (digit-width boundary)" % (n, lo, hi)))
         for n in ((3,) if q else (2, 3, 4, 5)):
             for tl in ((1,) if q else (0, 1, 2)):
                 P.append(dict(name="two/%s/n%d/t%d" % (kind, n, tl), harness="h_two", params=dict(kind=kind, n=n, tlen=tl),
